@@ -42,6 +42,8 @@ def run_call(spec):
         except Exception as e:
             return "raised " + type(e).__name__
         return "parsed"
+    if kind == "kwall":
+        return run_kwall(spec[2], spec[3])
     if kind == "poison":
         return run_poison(spec[2], spec[3])
     if kind == "tokenize":
@@ -96,12 +98,29 @@ def run_call(spec):
     raise KeyError(kind)
 
 
-KW_SHAPES = ["SELECT {w} FROM t", "SELECT {w} x FROM t", "SELECT {w}(1) FROM t", "SELECT x AS {w} FROM t", "SELECT a FROM {w}"]
+# a word in every syntactic position where a parser / tokenizer / dialect table is consulted: identifier, implicit alias,
+# function name, alias, table name, type name, unit after INTERVAL (value and type), unit of EXTRACT / date functions
+KW_SHAPES = ["SELECT {w} FROM t", "SELECT {w} x FROM t", "SELECT {w}(1) FROM t", "SELECT x AS {w} FROM t", "SELECT a FROM {w}",
+             "SELECT CAST(x AS {w}) FROM t", "SELECT INTERVAL '1' {w}", "SELECT x::INTERVAL {w} FROM t", "SELECT EXTRACT({w} FROM x) FROM t",
+             "SELECT DATE_TRUNC('{w}', x), DATEDIFF({w}, a, b) FROM t", "SELECT a FROM t {w}", "SELECT 1 {w} 2"]
 EXTRA: dict = {}   # additional digests a call wants to report (id -> digest)
 
 
 def kw_specs(word, dialects):
     return [[f"k|{word}|{d}|{j}", "transpile", sh.format(w=word.lower()), d, d] for d in dialects for j, sh in enumerate(KW_SHAPES)]
+
+
+def run_kwall(dialect, words):
+    """Every keyword probe of `words` in one dialect; digests are reported under the probe ids."""
+    for w in words:
+        for spec in kw_specs(w, [dialect]):
+            try:
+                EXTRA[spec[0]] = digest(run_call(spec))
+            except RecursionError:
+                EXTRA[spec[0]] = "EXC:RecursionError"
+            except Exception as e:
+                EXTRA[spec[0]] = f"EXC:{type(e).__name__}:{digest(norm_msg(str(e)))}"
+    return f"probed:{len(words)}"
 
 
 def _table_classes(d):
